@@ -103,6 +103,7 @@ package profiledb
 //@   requires DB(db)
 //@   let k = humanKey(humanID, id)
 //@   ensures found-iff-current-owner: (err == nil) == locked(foundHumanBy(db, id, humanID))
+//@   ensures answers-for-the-profile-that-was-asked-for: err == nil ==> p != nil && p.ID == id && d != nil && d.HumanIDLower == humanID
 
 // ---------------------------------------------------------------------------
 // C14, synchronisation: the latest response wins.  For a response whose
